@@ -320,6 +320,14 @@ def answer (line : String) : String :=
     (match start.toNat? with
      | some st => IR.semFindLine flags ir hay st
      | none => "bad-request")
+  | ["semfind16", flags, ir, hay, start] =>
+    (match start.toNat? with
+     | some st => IR.semFind16Line flags ir hay st
+     | none => "bad-request")
+  | ["semfind16ucs2", flags, ir, hay, start] =>
+    (match start.toNat? with
+     | some st => IR.semFind16Line flags ir hay st true
+     | none => "bad-request")
   | ["lower", flags, ast] => Lower.lowerLine flags ast
   | ["esvalid", flags, pat] => ESG.esValidLine flags pat
   | "search" :: args => opSearch args
